@@ -8,39 +8,40 @@
 #define ST_IN_PROGRESS (-2)
 #define ST_IN_CHILD (-3)
 
-#define PIPE_WF(fd) ((fd) == -1 || (IS_OPEN(fd) && IS_LIB(fd)))
-#define NE_OR_INVALID(a, b) ((a) == -1 || (a) != (b))
+#define PIPE_WF(fd) (B((fd) == -1) | (IS_OPEN(fd) & IS_LIB(fd)))
+#define NE_OR_INVALID(a, b) (B((a) == -1) | B((a) != (b)))
 #define PIPES_DISTINCT(p)                                                      \
-  (NE_OR_INVALID((p)->pipe.in, (p)->pipe.out) && NE_OR_INVALID((p)->pipe.in, (p)->pipe.err) && \
-   NE_OR_INVALID((p)->pipe.in, (p)->pipe.exit) && NE_OR_INVALID((p)->pipe.out, (p)->pipe.err) && \
-   NE_OR_INVALID((p)->pipe.out, (p)->pipe.exit) && NE_OR_INVALID((p)->pipe.err, (p)->pipe.exit))
+  (NE_OR_INVALID((p)->pipe.in, (p)->pipe.out) & NE_OR_INVALID((p)->pipe.in, (p)->pipe.err) & \
+   NE_OR_INVALID((p)->pipe.in, (p)->pipe.exit) & NE_OR_INVALID((p)->pipe.out, (p)->pipe.err) & \
+   NE_OR_INVALID((p)->pipe.out, (p)->pipe.exit) & NE_OR_INVALID((p)->pipe.err, (p)->pipe.exit))
 #define PIPES_ALL_INVALID(p)                                                   \
-  ((p)->pipe.in == -1 && (p)->pipe.out == -1 && (p)->pipe.err == -1 && (p)->pipe.exit == -1)
+  (B((p)->pipe.in == -1) & B((p)->pipe.out == -1) & B((p)->pipe.err == -1) & B((p)->pipe.exit == -1))
 #define PARENT_MASK(p)                                                         \
   (MASK_OF((p)->pipe.in) | MASK_OF((p)->pipe.out) | MASK_OF((p)->pipe.err) | MASK_OF((p)->pipe.exit))
 #define NB_CONSISTENT(p, fd)                                                   \
-  ((fd) == -1 || (((g.nonblock & MASK_OF(fd)) != 0) == (p)->nonblocking))
+  (B((fd) == -1) | B(((g.nonblock & MASK_OF(fd)) != 0) == (p)->nonblocking))
 /* a deadline is now + (int) option, on a clock > 2^32 that never goes back */
 #define DEADLINE_WF(p)                                                         \
-  ((p)->deadline == -1 ||                                                      \
-   ((p)->deadline > ((int64_t) 1 << 31) && (p)->deadline - g.now <= 0x7fffffffLL))
+  (B((p)->deadline == -1) |                                                    \
+   (B((p)->deadline > ((int64_t) 1 << 31)) & B((p)->deadline <= g.now + 0x7fffffffLL)))
 
+/* the representation invariant of reproc_t (DESIGN.md §2.4); branch-free */
 #define INV(p)                                                                 \
-  ((p)->status >= -3 && PIPE_WF((p)->pipe.in) && PIPE_WF((p)->pipe.out) &&     \
-   PIPE_WF((p)->pipe.err) && PIPE_WF((p)->pipe.exit) && PIPES_DISTINCT(p) &&   \
-   (p)->child.out == -1 && (p)->child.err == -1 && DEADLINE_WF(p) &&           \
-   NB_CONSISTENT(p, (p)->pipe.in) && NB_CONSISTENT(p, (p)->pipe.out) &&        \
-   NB_CONSISTENT(p, (p)->pipe.err) &&                                          \
-   IMPLIES((p)->status == ST_NOT_STARTED,                                      \
-           (p)->handle == -1 && PIPES_ALL_INVALID(p) && (p)->deadline == -1) && \
-   IMPLIES((p)->status == ST_IN_CHILD, (p)->handle == -1 && PIPES_ALL_INVALID(p)) && \
-   IMPLIES((p)->status == ST_IN_PROGRESS,                                      \
-           (p)->handle > 0 && (p)->handle == g.child_pid && g.child_live &&    \
-               !g.child_reaped && g.reaps == 0 && (p)->pipe.exit != -1) &&     \
-   IMPLIES((p)->status >= 0,                                                   \
-           (p)->handle > 0 && (p)->handle == g.child_pid && g.child_reaped &&  \
-               !g.child_live && g.reaps == 1 &&                                \
-               (p)->status == WST_DECODE(g.child_wstatus) && (p)->pipe.exit == -1))
+  ((B((p)->status >= -3) & PIPE_WF((p)->pipe.in) & PIPE_WF((p)->pipe.out) &    \
+    PIPE_WF((p)->pipe.err) & PIPE_WF((p)->pipe.exit) & PIPES_DISTINCT(p) &     \
+    B((p)->child.out == -1) & B((p)->child.err == -1) & DEADLINE_WF(p) &       \
+    NB_CONSISTENT(p, (p)->pipe.in) & NB_CONSISTENT(p, (p)->pipe.out) &         \
+    NB_CONSISTENT(p, (p)->pipe.err) &                                          \
+    IMPL((p)->status == ST_NOT_STARTED,                                        \
+         B((p)->handle == -1) & PIPES_ALL_INVALID(p) & B((p)->deadline == -1)) & \
+    IMPL((p)->status == ST_IN_CHILD, B((p)->handle == -1) & PIPES_ALL_INVALID(p)) & \
+    IMPL((p)->status == ST_IN_PROGRESS,                                        \
+         B((p)->handle > 0) & B((p)->handle == g.child_pid) & B(g.child_live) & \
+             B(!g.child_reaped) & B(g.reaps == 0) & B((p)->pipe.exit != -1)) & \
+    IMPL((p)->status >= 0,                                                     \
+         B((p)->handle > 0) & B((p)->handle == g.child_pid) & B(g.child_reaped) & \
+             B(!g.child_live) & B(g.reaps == 1) &                              \
+             B((p)->status == WST_DECODE(g.child_wstatus)) & B((p)->pipe.exit == -1))) != 0)
 
 #define P0(f) OLD(process->f)
 #define STARTED0 (process != NULL && (P0(status) == ST_IN_PROGRESS || P0(status) >= 0))
@@ -98,8 +99,8 @@ static int setup_input(pipe_type *pipe, const uint8_t *data, size_t size)
 #endif
 /* what reproc_poll needs of each source's handle */
 #define INV_POLL(p)                                                            \
-  (PIPE_WF((p)->pipe.in) && PIPE_WF((p)->pipe.out) && PIPE_WF((p)->pipe.err) && \
-   PIPE_WF((p)->pipe.exit) && (p)->child.out == -1 && (p)->child.err == -1 && DEADLINE_WF(p))
+  ((PIPE_WF((p)->pipe.in) & PIPE_WF((p)->pipe.out) & PIPE_WF((p)->pipe.err) &  \
+    PIPE_WF((p)->pipe.exit) & B((p)->child.out == -1) & B((p)->child.err == -1) & DEADLINE_WF(p)) != 0)
 #define SRC_OK(k) ((k) >= num_sources || sources[k].process == NULL || INV_POLL(sources[k].process))
 #define SRCS_OK (sources != NULL && num_sources >= 1 && num_sources <= VERIF_NSRC && SRC_OK(0) && SRC_OK(1) && SRC_OK(2))
 #define HAS_DL(k) ((k) < num_sources && sources[k].process != NULL && sources[k].process->deadline != -1)
@@ -146,6 +147,7 @@ static size_t find_earliest_deadline(reproc_event_source *sources, size_t num_so
 #define EV_NONZERO(k) (IN_RANGE(k) && SRC(k).events != 0)
 #define EV_COUNT ((EV_NONZERO(0) ? 1 : 0) + (EV_NONZERO(1) ? 1 : 0) + (EV_NONZERO(2) ? 1 : 0))
 #define EV_SUBSET(k) (!IN_RANGE(k) || ((SRC(k).events & ~((SRC(k).interests & 15) | EV_DEADLINE)) == 0 && (SRC(k).process != NULL || SRC(k).events == 0)))
+#define EV_ONLY_VALID(k) (!HASP(k) || ((!(SRC(k).events & EV_IN) || SRC(k).process->pipe.in != -1) && (!(SRC(k).events & EV_OUT) || SRC(k).process->pipe.out != -1) && (!(SRC(k).events & EV_ERR) || SRC(k).process->pipe.err != -1) && (!(SRC(k).events & EV_EXIT) || SRC(k).process->pipe.exit != -1)))
 #define ONLY_DEADLINE_ON(r) (IN_RANGE(r) && SRC(r).events == EV_DEADLINE && ((r) == 0 || EV_ZERO(0)) && ((r) == 1 || EV_ZERO(1)) && ((r) == 2 || EV_ZERO(2)))
 #define ONLY_DEADLINE_ON_EXPIRED(r) (ONLY_DEADLINE_ON(r) && EXPIRED_NOW(r))
 #define ONLY_DEADLINE_ON_EARLIEST(r) (ONLY_DEADLINE_ON(r) && EARLIEST(r))
@@ -166,14 +168,17 @@ static size_t find_earliest_deadline(reproc_event_source *sources, size_t num_so
 CONTRACT(reproc_poll)
 int reproc_poll(reproc_event_source *sources, size_t num_sources, int timeout)
   REQ_(timeout >= -1 && num_sources <= VERIF_NSRC)
-  ASSIGNS(sources != NULL: __CPROVER_object_whole(sources); g)
+  ASSIGNS(sources != NULL: __CPROVER_object_whole(sources); G_ERR, G_POLL)
+  ENS("C14/reproc_poll.error_ghost_sane", G_ERR_SANE && g.now >= OLD(g.now))
   ENS("C14/reproc_poll.misuse_is_einval", IMPLIES(sources == NULL || num_sources == 0, RV == -EINVAL && OS_UNTOUCHED))
   ENS("C09/reproc_poll.sources_not_rewritten", IMPLIES(sources != NULL && num_sources != 0, ALL_K(KEPT)))
   ENS("C09/reproc_poll.epipe_only_if_nothing_can_be_polled", IMPLIES(sources != NULL && num_sources != 0 && RV == -EPIPE, !ANY_K(VALID_ANY) && g.poll_calls == OLD(g.poll_calls)))
   ENS("C09/reproc_poll.events_subset_of_interests", IMPLIES(sources != NULL && num_sources != 0 && RV >= 0, ALL_K(EV_SUBSET)))
+  ENS("C09/reproc_poll.stream_events_only_for_streams_that_can_be_polled", IMPLIES(sources != NULL && num_sources != 0 && RV >= 0, ALL_K(EV_ONLY_VALID)))
+  ENS("C08/reproc_poll.infinite_timeout_returns_with_an_event", IMPLIES(sources != NULL && num_sources != 0 && timeout == -1 && RV >= 0, RV >= 1))
   ENS("C09/reproc_poll.result_counts_sources_with_events", IMPLIES(sources != NULL && num_sources != 0 && RV >= 0, RV == EV_COUNT))
   ENS("C04/reproc_poll.errors", IMPLIES(sources != NULL && num_sources != 0 && RV < 0 && RV != -EPIPE, g.faults > OLD(g.faults) && IMPLIES(OLD(g.faults) == 0, RV == -g.first_errno)))
-  ENS("C05/reproc_poll.ledger_unchanged", g.open == OLD(g.open) && g.lib == OLD(g.lib) && g.nsig == OLD(g.nsig) && g.reaps == OLD(g.reaps) && g.kill_calls == OLD(g.kill_calls) && g.wait_calls == OLD(g.wait_calls) && g.rd_calls == OLD(g.rd_calls) && g.wr_calls == OLD(g.wr_calls))
+  ENS("C05/reproc_poll.ledger_unchanged", g.open == OLD(g.open) && g.lib == OLD(g.lib))
   ;
 
 /* reproc_start (C04, C05, C06, C10, C12, C13, C14). */
